@@ -109,7 +109,7 @@ func genC04(g *Gen) {
 			}
 			g.Run("more than 2^16 tokens:"+kind, []Ev{{"op": "tok", "kind": kind, "opts": []any{}, "input": cpsR([]rune(strings.Repeat(unit, 35000)))}})
 		}
-		for _, sz := range longSizes {
+		for _, sz := range g.WithRandomSizes(longSizes, g.Pick(6, 60), 2, g.Pick(300, 5000)) {
 			if sz > g.Pick(300, 5000) {
 				continue
 			}
